@@ -95,11 +95,19 @@ CALLS = {
 out = []
 w = out.append
 w(open("/verif/tools/arms_hdr.rs").read())
+out_main = out
+out = []
+w = out.append
+w("// ---- diff_meaning.rs (generated by tools/gen_arms.py): engine-call vocabulary and the meaning of each Diff variant ----")
 w("/// ghost record of one call into the engine")
 w("pub enum Call {")
 for c, (_m, _f, tys, _a) in CALLS.items():
     w(f"    {c}({', '.join(tys)}),")
 w("}")
+meaning_calls = out
+out = out_main
+w = out.append
+w("//@include diff_meaning.rs")
 w("impl<'a> Model<'a> {")
 w("    /// the sequence of mutating engine calls performed so far (ghost; the engine state is a function of it: A-functional)")
 w("    pub uninterp spec fn log(&self) -> Seq<Call>;")
@@ -110,6 +118,9 @@ for c, (meth, file, tys, args) in CALLS.items():
     w("//@end")
 w("}")
 w("")
+out_main = out
+out = meaning_calls
+w = out.append
 w("// ---- what redo / undo of each recorded diff must do to the engine (from the meaning of the variant) ----")
 for d in VARS:
     v = d["v"]
@@ -119,6 +130,11 @@ for d in VARS:
     if d["undo"]:
         c, a = d["undo"]
         w(f"pub open spec fn undo_{v}({params}) -> Seq<Call> {{ seq![Call::{c}({', '.join(a)})] }}")
+w("/// redo of a whole recorded diff (variants under contract; the rest are unconstrained)")
+w("pub open spec fn small(x: int) -> bool { -4194304 <= x <= 4194304 }")
+open("/verif/units/diff_meaning.rs", "w").write("\n".join(out) + "\n")
+out = out_main
+w = out.append
 w("")
 w("impl<'a> UserModel<'a> {")
 for d in VARS:
